@@ -505,7 +505,7 @@ func c08Specs(thorough bool) []c08Case {
 	}
 	// files that come from the library's own file sources (readers, read-seekers, also ones that stand behind a header
 	// the caller has consumed): the rendering that is digested and the one that is emitted read them one after the other
-	for _, src := range []string{"reader", "readseeker", "buffer", "reader@", "readseeker@", "ttpl"} {
+	for _, src := range []string{"reader", "readseeker", "buffer", "reader@", "readseeker@", "readseeker+", "ttpl"} {
 		for _, menc := range encs {
 			for _, kind := range []int{1, 2} {
 				sp := mb.Msg{Enc: menc, SMIME: kind, Parts: []mb.Part{{Type: "text/plain", Content: c08Texts[0]}},
